@@ -246,6 +246,9 @@ r("xml_info::XmlItem::remove_from_parent|panic|unreachable!#1",
   "Comment, Element, PI, Text, Unexpanded, DocumentType) have an attribute, element or document as parent - items whose parent "
   "is the DOCTYPE (entities, notations, PIs of the internal subset) are refused or have no DOM handle", "remove_after_kind_test")
 
+r("xml_info::XmlElement::node|index|index<-arg1#1",
+  "`value.attributes[..i]` with i produced by enumerate() over the same vector: i < len")
+
 # ---- order vector (affine index rule C14-4 checks the expressions)
 r("xml_info::DocumentOrder::insert_after|vec-index|insert<-?#1", "order = position+1 <= len (guarded by order > 0)")
 r("xml_info::DocumentOrder::insert_before|vec-index|insert<-?#1", "order-1 = position < len (guarded by order > 0)")
